@@ -37,8 +37,13 @@ def settings_texts(L, mon, settings):
         try:
             if isinstance(settings, tuple):
                 settings = list(settings)
-            probe = L.AnsiString('x')
-            probe.apply_formatting(settings)
+            if isinstance(settings, int) and not isinstance(settings, bool):
+                # a bare integer code is read through the constructor (it arrives there inside the argument tuple),
+                # so that the judged call's own handling of a falsy 0 is not what defines the expectation
+                probe = L.AnsiString('x', settings)
+            else:
+                probe = L.AnsiString('x')
+                probe.apply_formatting(settings)
             return [str(s) for s in probe.ansi_settings_at(0)]
         except Exception:
             return None
